@@ -126,6 +126,8 @@ class _Sym(Flow):
 
     @staticmethod
     def emit(st, ev):
+        if st[2].count(ev) >= 3:
+            return st  # keeps the state space finite inside loops over unknown iterables; three repetitions decide every count rule
         return (st[0], st[1], st[2] + (ev,))
 
     def tokens(self, val, st):
@@ -952,7 +954,7 @@ U_ATOMS = ('flag_f', 'flag_o', 'decl', 'self', 'infb')
 class _UpdModel(_Model):
     """report = {focus entry f, other entry o}; children of the reporting node = {c, d}; declared references of a
     node n = {(n,v), (n,w)}.  Atoms: flag_f / flag_o (entry flagged new), decl (reference (c,v) names entry f),
-    self (c carries the tag of the reporting node), infb (the name of f is a key of the feedback table).
+    self (c carries the tag of the reporting node, i.e. c *is* the reporting node), infb (the name of f is a key of the feedback table).
     Every other (reference, entry) pair does not match; the name of o is not in the feedback table."""
 
     def __init__(self, prog, rho, arity, ranges):
@@ -1007,6 +1009,8 @@ class _UpdModel(_Model):
             return False
         if a[0] == 'vname' and self._entry_str(b):
             self.ranges['name'].add((b[2], b[3]))
+            if a[1] == 'orig':  # the reporting node reads its own output exactly when its self edge (child c) does
+                return bool(a[2] == 'v' and b[1][1] == 'f' and self.rho['decl'] and self.rho['self'])
             return bool(a[1] == 'c' and a[2] == 'v' and b[1][1] == 'f' and self.rho['decl'])
         if a[0] == 'vname' and b[0] == 'vname':
             return a == b
@@ -1110,6 +1114,7 @@ U_CHECKS = {
     'dependent-selected': 'a child that declares a value reported new is handed to organize (completeness)',
     'dependent-minimal': 'a child is handed to organize only when one of its declared inputs was reported new',
     'no-stranger': 'nothing but matched children and feedback consumers is handed to organize',
+    'self-excluded': 'the reporting node itself (a child carrying its own tag: an algorithm reading its previous output) is never handed to organize',
     'feedback-selected': 'the consumer registered in the feedback table for a value reported new is handed to organize',
     'feedback-minimal': 'a feedback consumer is handed to organize only for a value reported new that is in the table',
     'targets-complete': 'the target of every entry reported new is handed to organize',
@@ -1146,8 +1151,10 @@ def _row_issues(rho, paths, ranges):
             iss['dependent-selected'].append(f'child declaring the new value not scheduled ({shown})')
         if not want_c and not rho['self'] and 'c' in kids:
             iss['dependent-minimal'].append(f'child scheduled although none of its inputs was reported new ({shown})')
-        if 'd' in kids or 'orig' in kids or junk:
-            what = sorted(kids & {'d', 'orig'}) + [repr(j)[:60] for j in junk]
+        if 'orig' in kids or (rho['self'] and 'c' in kids):
+            iss['self-excluded'].append(f'the reporting node is scheduled again by its own report ({shown})')
+        if 'd' in kids or junk:
+            what = sorted(kids & {'d'}) + [repr(j)[:60] for j in junk]
             iss['no-stranger'].append(f'unrelated names scheduled: {what} ({shown})')
         if want_fb and 'f' not in fbs:
             iss['feedback-selected'].append(f'feedback consumer of the new value not scheduled ({shown})')
@@ -1236,7 +1243,7 @@ def _update_rules(ctx, rep, arity):
                 r.fail(f'{f.qname}:{c}', where(f), f'{U_CHECKS[c]} -- violated in {len(msgs)} row(s)/path(s), e.g. {msgs[0]}')
         for key, (wh, msg) in sorted(sh.get('problems', {}).items()):
             r.fail(key, wh, msg)
-        r.note('a child carrying the tag of the reporting node (self edge) is a cycle and outside the property (acyclic graphs): either treatment is accepted')
+        r.note('self edges (an algorithm that lists its own output as input, as Control/Model of the repository\'s feedback AE) must be skipped: otherwise every run re-queues itself and the pipeline never quiesces')
         r.note('the promotion engine (re-use of old results for entries not flagged new) is a separate mechanism and is not decided')
         _organize_rule(ctx, rep, r)
     return ranges
@@ -1433,3 +1440,834 @@ def _is_empty_coll(e):
     if isinstance(e, (ast.Set, ast.List, ast.Tuple)) and not e.elts:
         return True
     return isinstance(e, ast.Call) and isinstance(e.func, ast.Name) and e.func.id in ('set', 'list', 'tuple', 'frozenset') and not e.args
+
+
+# ---------------------------------------------------------------------------
+# R-C02-3 : input declaration coverage
+
+# element class produced by the bots of each factory kind (dawgie.Task.routines -> Algorithm, Analysis -> Analyzer,
+# Regress -> Regression: the three abstract bases of the architecture)
+FACTORY_CLASS = {'task': 'dawgie.Algorithm', 'analysis': 'dawgie.Analyzer', 'regress': 'dawgie.Regression'}
+REF_KINDS = ('dawgie.V_REF', 'dawgie.SV_REF', 'dawgie.ALG_REF')
+SVREF2VREF = 'dawgie.util.refs.svref2vref'
+ALGREF2SVREF = 'dawgie.util.refs.algref2svref'
+
+
+class _KindModel(_Model):
+    """one symbolic parameter whose class is fixed by the oracle"""
+
+    def __init__(self, val, kind):
+        self.val, self.kind = val, kind
+
+    def isinstance(self, val, tsym):
+        if val == self.val:
+            return tsym == self.kind
+        return None
+
+    def truthy(self, val):
+        return True if val == self.val else None
+
+    def eq(self, a, b):
+        if a == self.val and b == ('const', None):
+            return False
+        return None
+
+
+def _denoted(it_tokens, val, st):
+    """what a returned value stands for: the value itself, or the elements copied into a fresh list"""
+    if val[0] == 'obj':
+        out = set()
+        for t in _eget(st[1], val[1], frozenset()):
+            out.add(t[1] if t[0] == 'elements-of' else ('element', t))
+        return out
+    return {val}
+
+
+def _dag_accessor_table(prog):
+    """{factory kind: (accessor name, sub-tree builder Func, call)} from dag.Construct.__init__"""
+    init = prog.func('dawgie.pl.dag.Construct.__init__')
+    tab = {}
+    for c in calls_to(prog, init, 'dawgie.pl.dag.Construct._build_tree'):
+        if len(c.args) < 4:
+            continue
+        k = None
+        for n in ast.walk(c.args[0]):
+            if isinstance(n, ast.Attribute) and prog.resolve_in(n.value, init) == 'dawgie.base.Factories' or (isinstance(n, ast.Attribute) and norm(n.value).endswith('Factories')):
+                k = n.attr
+        acc = c.args[3].value if isinstance(c.args[3], ast.Constant) else None
+        sub = prog.func_of(prog.resolve_in(c.args[2], init)) if isinstance(c.args[2], (ast.Name, ast.Attribute)) else None
+        if k is not None:
+            tab[k] = (acc, sub, c)
+    return init, tab
+
+
+class _AsVrefModel(_KindModel):
+    def items(self, val):
+        if val[0] == 'svrefs':
+            return ('generic', (('svref', val[1]),))
+        if val[0] == 'vrefs':
+            return ('generic', (('vref', val[1]),))
+        return None
+
+    def call(self, it, node, sym, a, kw, st):
+        if sym == SVREF2VREF and len(a) == 1:
+            return [(('vrefs', a[0]), st)]
+        if sym == ALGREF2SVREF and len(a) == 1:
+            return [(('svrefs', a[0]), st)]
+        return NotImplemented
+
+
+class _RefHelperModel(_Model):
+    def __init__(self, prog, fields):
+        self.prog, self.fields = prog, fields
+
+    def items(self, val):
+        ref = ('p', 'ref')
+        if val in (('attr', ref, 'item'), ('mcall', ('attr', ref, 'item'), 'keys', ())):
+            return ('generic', (('key',),))
+        if val == ('mcall', ('attr', ref, 'impl'), 'state_vectors', ()):
+            return ('generic', (('sv',),))
+        return None
+
+    def call(self, it, node, sym, a, kw, st):
+        if sym in self.fields:
+            names = self.fields[sym]
+            vals = []
+            for i, n in enumerate(names):
+                vals.append(a[i] if i < len(a) else kw.get(n, ('const', None)))
+            return [((sym, tuple(vals)), st)]
+        return NotImplemented
+
+
+def _namedtuple_fields(prog, name):
+    m = prog.module('dawgie')
+    for v in m.globals.get(name, []):
+        if isinstance(v, ast.Call) and call_name(v) == 'namedtuple' and len(v.args) == 2 and isinstance(v.args[1], (ast.List, ast.Tuple)):
+            return [e.value for e in v.args[1].elts if isinstance(e, ast.Constant)]
+    raise AnalysisError(f'dawgie.{name} is no longer a namedtuple with a literal field list')
+
+
+def _rule3(ctx, rep):
+    prog = ctx.prog
+    with rep.rule(
+        'R-C02-3',
+        'input declaration coverage: _priors dispatches on all three element kinds with the accessor dag.Construct uses for that kind; as_vref expands all three reference kinds to value level',
+        floor=11,
+        breaks='the dependents of one kind of element (or inputs declared at algorithm / state-vector granularity) are never matched against the new values: they are not re-run after a change',
+    ) as r:
+        pri = prog.func(PRIORS)
+        rep.analysed(pri)
+        init, tab = _dag_accessor_table(prog)
+        rep.analysed(init)
+        if set(tab) != set(FACTORY_CLASS):
+            raise AnalysisError(f'dag.Construct.__init__ builds trees for {sorted(tab)}, expected {sorted(FACTORY_CLASS)}')
+        if len(pri.params()) != 1:
+            raise AnalysisError('schedule._priors no longer takes the element as its only parameter')
+        p = ('p', pri.params()[0])
+        for kind, cls in sorted(FACTORY_CLASS.items()):
+            acc, sub, call = tab[kind]
+            # (a) the dag table: accessor is a method of the class and the sub-tree builder reads the same accessor
+            r.instance()
+            has = prog.method(cls, acc) is not None if acc else False
+            reads = set()
+            if sub is not None:
+                rep.analysed(sub)
+                for c in calls_to(prog, sub, AS_VREF):
+                    if c.args and isinstance(c.args[0], ast.Call) and isinstance(c.args[0].func, ast.Attribute) and not c.args[0].args:
+                        reads.add(c.args[0].func.attr)
+            r.check(
+                has and reads == {acc},
+                f'{init.qname}:accessor[{kind}]',
+                where(init, call),
+                f'{kind}: {cls}.{acc}() is the declared-input accessor (tree builder reads {sorted(reads)})',
+                f'dag.Construct builds the {kind} tree with accessor {acc!r} but {cls} defines it: {has}; the sub-tree builder reads {sorted(reads)}',
+                nontrivial=False,
+            )
+            # (b) _priors returns exactly that accessor for an element of that class
+            r.instance()
+            out, sh, _it = _run(prog, pri, _KindModel(p, cls), {p[1]: p})
+            got = set()
+            for st in out.ret:
+                got |= {repr(x) for x in _denoted(None, _eget(st[0], '$ret'), st)}
+            if out.normal:
+                got.add('None (falls off the end)')
+            want = repr(('mcall', p, acc, ()))
+            r.check(
+                got == {want},
+                f'{pri.qname}:{cls}',
+                where(pri),
+                f'{cls} -> {acc}() on every path',
+                f'_priors returns {sorted(got)} for an instance of {cls}; the task graph is built from {acc}() for that kind, so its declared inputs are not compared with the new values',
+            )
+            for key, (wh, msg) in sorted(sh['problems'].items()):
+                r.fail(key, wh, msg)
+        # (c) as_vref
+        asv = prog.func(AS_VREF)
+        rep.analysed(asv)
+        if len(asv.params()) != 1:
+            raise AnalysisError('util.refs.as_vref no longer takes the reference list as its only parameter')
+        ref = ('ref', 'r')
+        want = {
+            'dawgie.V_REF': {'the reference itself'},
+            'dawgie.SV_REF': {repr(('vrefs', ref))},
+            'dawgie.ALG_REF': {repr(('vrefs', ('svref', ref)))},
+        }
+        for kind in REF_KINDS:
+            r.instance()
+            out, sh, _it = _run(prog, asv, _AsVrefModel(ref, kind), {asv.params()[0]: ('mlist', 'refs', (ref,))})
+            bad = []
+            paths = out.normal | out.ret
+            for st in paths:
+                cov = set()
+                for ev in st[2]:
+                    if ev[0] == 'yield' and ev[1] == ref:
+                        cov.add('the reference itself' if kind == 'dawgie.V_REF' else f'unexpanded {kind}')
+                    elif ev[0] == 'yield' and ev[1][0] == 'vref':
+                        cov.add(repr(('vrefs', ev[1][1])))
+                    elif ev[0] == 'yieldfrom' and ev[1][0] == 'vrefs':
+                        cov.add(repr(ev[1]))
+                    elif ev[0] in ('yield', 'yieldfrom'):
+                        cov.add(f'{ev[0]} {ev[1]!r}'[:80])
+                if cov != want[kind]:
+                    bad.append(sorted(cov))
+            r.check(
+                bool(paths) and not bad,
+                f'{asv.qname}:{kind}',
+                where(asv),
+                f'{kind} expands to {sorted(want[kind])}',
+                f'as_vref yields {bad[:2]} for a {kind} (expected its value-level references {sorted(want[kind])}): inputs declared with that kind of reference are never matched',
+            )
+            for key, (wh, msg) in sorted(sh['problems'].items()):
+                r.fail(key, wh, msg)
+        # (d) the two expansion helpers keep every field and cover every key / state vector
+        fields = {'dawgie.V_REF': _namedtuple_fields(prog, 'V_REF'), 'dawgie.SV_REF': _namedtuple_fields(prog, 'SV_REF')}
+        pr = ('p', 'ref')
+        exp = {
+            SVREF2VREF: ('dawgie.V_REF', {'factory': ('attr', pr, 'factory'), 'impl': ('attr', pr, 'impl'), 'item': ('attr', pr, 'item'), 'feat': ('key',)}),
+            ALGREF2SVREF: ('dawgie.SV_REF', {'factory': ('attr', pr, 'factory'), 'impl': ('attr', pr, 'impl'), 'item': ('sv',)}),
+        }
+        for q, (cls, fmap) in exp.items():
+            fn = prog.func(q)
+            rep.analysed(fn)
+            r.instance()
+            if len(fn.params()) != 1:
+                raise AnalysisError(f'{q} no longer takes one reference')
+            out, sh, it = _run(prog, fn, _RefHelperModel(prog, fields), {fn.params()[0]: pr})
+            wantv = (cls, tuple(fmap.get(n, ('const', None)) for n in fields[cls]))
+            got = []
+            for st in out.ret:
+                v = _eget(st[0], '$ret')
+                got.append(set(it.tokens(v, st)))
+            r.check(
+                bool(got) and all(g == {wantv} for g in got),
+                f'{q}:expansion',
+                where(fn),
+                f'one {cls} per key / state vector with factory, impl (and item) passed through',
+                f'{q} returns {[sorted(map(repr, g))[:2] for g in got][:2]}, expected one {wantv!r} per element',
+            )
+
+
+# ---------------------------------------------------------------------------
+# R-C02-4 : format agreement
+
+W_ROLES = ['RUN', 'TARGET', 'TASK', 'ALG', 'SV', 'VAL']
+
+
+def _dotted_fields(e):
+    """'.'.join([...]) / f'{a}.{b}' / a + '.' + b  -> list of field expressions, else None"""
+    if isinstance(e, ast.Call) and isinstance(e.func, ast.Attribute) and e.func.attr == 'join' and isinstance(e.func.value, ast.Constant) and e.func.value.value == '.' and len(e.args) == 1 and isinstance(e.args[0], (ast.List, ast.Tuple)):
+        return list(e.args[0].elts)
+    parts = None
+    if isinstance(e, ast.JoinedStr):
+        parts = [v if isinstance(v, ast.Constant) else v.value for v in e.values]
+    elif isinstance(e, ast.BinOp) and isinstance(e.op, ast.Add):
+        parts = []
+
+        def flat(x):
+            if isinstance(x, ast.BinOp) and isinstance(x.op, ast.Add):
+                flat(x.left)
+                flat(x.right)
+            else:
+                parts.append(x)
+
+        flat(e)
+    if parts is None:
+        return None
+    fields = []
+    for i, p in enumerate(parts):
+        if i % 2 == 0:
+            if isinstance(p, ast.Constant):
+                return None
+            fields.append(p)
+        elif not (isinstance(p, ast.Constant) and p.value == '.'):
+            return None
+    return fields if len(parts) % 2 == 1 else None
+
+
+class _Defs:
+    """single-assignment copy propagation inside one function (loop variables and parameters are left alone)"""
+
+    def __init__(self, fn):
+        self.fn = fn
+        self.vals = {}
+        self.loops = {}
+        for n in fn.own_nodes():
+            if isinstance(n, ast.Assign):
+                for t in n.targets:
+                    if isinstance(t, ast.Name):
+                        self.vals.setdefault(t.id, []).append(n.value)
+                    elif isinstance(t, ast.Tuple):
+                        for i, el in enumerate(t.elts):
+                            if isinstance(el, ast.Name):
+                                v = n.value.elts[i] if isinstance(n.value, ast.Tuple) and len(n.value.elts) == len(t.elts) else None
+                                self.vals.setdefault(el.id, []).append(v)
+            elif isinstance(n, (ast.AugAssign, ast.AnnAssign)) and isinstance(n.target, ast.Name):
+                self.vals.setdefault(n.target.id, []).append(None)
+            elif isinstance(n, (ast.For, ast.comprehension)):
+                t = n.target
+                if isinstance(t, ast.Name):
+                    self.loops.setdefault(t.id, []).append((n.iter, None))
+                elif isinstance(t, ast.Tuple):
+                    for i, el in enumerate(t.elts):
+                        if isinstance(el, ast.Name):
+                            self.loops.setdefault(el.id, []).append((n.iter, i))
+
+    def canon(self, e, depth=4):
+        defs = self
+
+        class T(ast.NodeTransformer):
+            def visit_Name(self, node):
+                vs = defs.vals.get(node.id)
+                if isinstance(node.ctx, ast.Load) and vs and len(vs) == 1 and vs[0] is not None and node.id not in defs.loops and node.id not in defs.fn.params() and depth > 0:
+                    return defs.canon(vs[0], depth - 1)
+                return node
+
+        import copy
+
+        return T().visit(copy.deepcopy(e))
+
+
+def _writer_roles(fn, fields, defs):
+    """role of every field of a stored-value name built in a Dataset writer"""
+    out = []
+    for e in fields:
+        ce = defs.canon(e)
+        if isinstance(ce, ast.Call) and isinstance(ce.func, ast.Name) and ce.func.id == 'str' and len(ce.args) == 1 and not ce.keywords:
+            ce = ce.args[0]  # str(x): the text of x (f-string fields are stringified the same way)
+        t = norm(ce)
+        if t == 'self._runid()':
+            out.append('RUN')
+        elif t == 'self._tn()':
+            out.append('TARGET')
+        elif t == 'self._task()':
+            out.append('TASK')
+        elif t in ('self._alg().name()', 'self._algn()'):
+            out.append('ALG')
+        elif isinstance(ce, ast.Call) and isinstance(ce.func, ast.Attribute) and ce.func.attr == 'name' and not ce.args and isinstance(ce.func.value, ast.Name):
+            x = ce.func.value.id
+            src = [norm(i) for i, _k in defs.loops.get(x, [])]
+            if x in fn.params() or any(s.endswith('.state_vectors()') for s in src):
+                out.append(('SV', x))
+            else:
+                out.append(f'?{t}')
+        elif isinstance(ce, ast.Name) and ce.id in defs.loops:
+            roles = set()
+            for it, idx in defs.loops[ce.id]:
+                s = norm(it)
+                if idx in (None, 0) and isinstance(it, ast.Call) and isinstance(it.func, ast.Attribute) and it.func.attr in ('keys', 'items') and isinstance(it.func.value, ast.Name) and (idx == 0) == (it.func.attr == 'items'):
+                    roles.add(('VAL', it.func.value.id))
+                elif idx is None and isinstance(it, ast.Name):
+                    roles.add(('VAL', it.id))
+                else:
+                    roles.add(f'?{ce.id} in {s}')
+            out.append(roles.pop() if len(roles) == 1 else f'?{t}')
+        else:
+            out.append(f'?{t}')
+    return out
+
+
+def _vref_name_roles(prog):
+    fn = prog.func(VREF_AS_NAME)
+    rets = [n for n in fn.own_nodes() if isinstance(n, ast.Return) and n.value is not None]
+    if len(rets) != 1 or len(fn.params()) != 1:
+        return fn, None
+    defs = _Defs(fn)
+    fields = _dotted_fields(defs.canon(rets[0].value))
+    if fields is None:
+        return fn, None
+    p = fn.params()[0]
+    roles = []
+    for e in fields:
+        t = norm(e)
+        if isinstance(e, ast.Call) and prog.resolve_in(e.func, fn) == 'dawgie.util.names.task_name' and len(e.args) == 1 and norm(e.args[0]) == f'{p}.factory':
+            roles.append('TASK')
+        elif t == f'{p}.impl.name()':
+            roles.append('ALG')
+        elif t == f'{p}.item.name()':
+            roles.append('SV')
+        elif t == f'{p}.feat':
+            roles.append('VAL')
+        else:
+            roles.append(f'?{t}')
+    return fn, roles
+
+
+def _report_writers(prog):
+    out = []
+    for fn in prog.funcs.values():
+        if not fn.module.name.startswith('dawgie.db'):
+            continue
+        for c in fn.calls():
+            if isinstance(c.func, ast.Attribute) and c.func.attr == 'new_values' and (c.args or c.keywords):
+                out.append((fn, c))
+    return out
+
+
+def _rule4(ctx, rep, ranges):
+    prog = ctx.prog
+    with rep.rule(
+        'R-C02-4',
+        'format agreement: the names written into the new-value report (run.target.task.alg.sv.value, target = the dataset\'s own target name) '
+        'against the fields schedule.update reads and against util.vref_as_name / the feedback table',
+        floor=14,
+        breaks='update compares names that can never be equal (nothing is rescheduled) or schedules the dependents for a string that is not the target the values were stored under',
+    ) as r:
+        writers = _report_writers(prog)
+        shapes = []
+        for fn, c in writers:
+            r.instance()
+            rep.analysed(fn)
+            defs = _Defs(fn)
+            a0 = c.args[0] if c.args else c.keywords[0].value
+            entry = defs.canon(a0)
+            key = f'{fn.qname}:new-value-name'
+            if not (isinstance(entry, ast.Tuple) and len(entry.elts) == 2):
+                r.fail(key, where(fn, c), f'the report entry {norm(a0)[:80]} is not a (name, isnew) pair this rule can read')
+                continue
+            fields = _dotted_fields(entry.elts[0])
+            if fields is None:
+                r.fail(key, where(fn, c), f'the reported name {norm(entry.elts[0])[:100]} is not built as a dotted join of fields')
+                continue
+            roles = _writer_roles(fn, fields, defs)
+            kinds = [x[0] if isinstance(x, tuple) else x for x in roles]
+            same_sv = len(roles) == 6 and isinstance(roles[4], tuple) and isinstance(roles[5], tuple) and roles[4][1] == roles[5][1]
+            ok = kinds == W_ROLES and same_sv
+            shapes.append(kinds)
+            msg = f'reported name has fields {kinds}, expected {W_ROLES} joined by "."'
+            if len(kinds) > 1 and kinds[1] != 'TARGET' and kinds[:1] == ['RUN']:
+                msg += f'; field 1 is {norm(defs.canon(fields[1]))}, not the dataset\'s own target name self._tn() under which the value is stored'
+            r.check(ok, key, where(fn, c), f'fields {kinds}', msg)
+            # the same target name keys the stored value
+            for k in fn.calls():
+                sym = prog.callee(k, fn) or ''
+                kf = prog.func_of(sym)
+                if kf is None or kf.cls is None or kf.cls is not fn.cls:
+                    continue
+                ps = kf.params()
+                if 'tn' not in ps:
+                    continue
+                i = ps.index('tn') - (0 if kf.is_staticmethod() else 1)
+                tn_arg = arg(k, i, 'tn')
+                if tn_arg is None:
+                    dflt_ok = any(isinstance(n, ast.Assign) and norm(n.value).replace(' ', '') in ('tniftnelseself._tn()', 'tnorself._tn()') for n in kf.own_nodes())
+                    r.check(dflt_ok, f'{fn.qname}:key-target:{norm(k)[:60]}', where(fn, k), f'{kf.name} defaults to self._tn()', f'{norm(k)[:80]}: the target of the database key does not default to self._tn()', nontrivial=False)
+                else:
+                    t = norm(defs.canon(tn_arg))
+                    r.check(t == 'self._tn()', f'{fn.qname}:key-target:{norm(k)[:60]}', where(fn, k), 'database key uses self._tn()', f'{norm(k)[:80]}: the database key is built for target {t} while the report must name the same target')
+        if len(writers) < 3:
+            raise AnalysisError(f'only {len(writers)} new-value report writers found in the database back ends (expected shelve _update, shelve _update_msv, post _update)')
+        good = [s for s in shapes if s == W_ROLES]
+        arity = 6
+        ti, n0 = W_ROLES.index('TARGET'), W_ROLES.index('TASK')
+        # readers in schedule.update (ranges of the dotted name observed by the symbolic execution)
+        upd = prog.func(UPDATE)
+        r.instance()
+        r.check(
+            ranges['target'] == {(ti, ti + 1)},
+            f'{upd.qname}:target-field',
+            where(upd),
+            f'targets handed to organize are field {ti} of the reported name',
+            f'targets handed to organize are taken from fields {sorted(ranges["target"])} of the reported name; the writers put the target name in field {ti}',
+        )
+        vfn, vroles = _vref_name_roles(prog)
+        rep.analysed(vfn)
+        r.instance()
+        r.check(
+            vroles == W_ROLES[n0:],
+            f'{vfn.qname}:shape',
+            where(vfn),
+            f'vref_as_name = {vroles}',
+            f'util.vref_as_name builds {vroles}; the report carries {W_ROLES[n0:]} after run id and target',
+        )
+        r.instance()
+        r.check(
+            ranges['name'] == {(n0, arity)},
+            f'{upd.qname}:name-fields',
+            where(upd),
+            f'names compared with declared inputs are fields {n0}..{arity - 1} of the reported name',
+            f'names compared with vref_as_name(...) are fields {sorted(ranges["name"])} of the reported name, expected {n0}..{arity - 1} ({W_ROLES[n0:]})',
+        )
+        # feedback table: keyed like vref_as_name, holds the consumer's value-level tag; update trims it to algorithm level
+        fb = prog.func('dawgie.pl.dag.Construct._feedback')
+        rep.analysed(fb)
+        r.instance()
+        stores = [
+            n
+            for n in fb.own_nodes()
+            if isinstance(n, ast.Assign) and isinstance(n.targets[0], ast.Subscript) and norm(n.targets[0].value) == 'self._feedbacks'
+        ]
+        fdefs = _Defs(fb)
+        okfb = bool(stores)
+        det = 'no store into self._feedbacks found'
+        for s in stores:
+            k = fdefs.canon(s.targets[0].slice)
+            kok = isinstance(k, ast.Call) and prog.resolve_in(k.func, fb) == VREF_AS_NAME
+            vok = isinstance(s.value, ast.Attribute) and s.value.attr == 'tag'
+            okfb = okfb and kok and vok
+            det = f'{norm(s)}: key {"is" if kok else "is NOT"} vref_as_name(...), value {"is" if vok else "is NOT"} the consumer tag'
+        r.check(okfb, f'{fb.qname}:table-shape', where(fb), det, f'feedback table does not map vref_as_name(fed-back value) to the consumer tag: {det}')
+        r.instance()
+        r.check(
+            ranges['fbkey'] <= {(n0, arity)} and bool(ranges['fbkey']),
+            f'{upd.qname}:feedback-key-fields',
+            where(upd),
+            'feedback table is looked up with the same fields as the declared inputs',
+            f'feedback table is looked up with fields {sorted(ranges["fbkey"])} of the reported name, expected {n0}..{arity - 1}',
+        )
+        init = prog.func('dawgie.pl.dag.Construct.__init__')
+        lvl = None
+        for n in init.own_nodes():
+            if isinstance(n, ast.Assign) and norm(n.targets[0]) == 'self._at' and isinstance(n.value, ast.Call) and n.value.args and isinstance(n.value.args[0], ast.Constant):
+                lvl = n.value.args[0].value
+        r.instance()
+        r.check(
+            lvl is not None and ranges['fbtask'] == {(0, lvl)},
+            f'{upd.qname}:feedback-task-fields',
+            where(upd),
+            f'feedback consumer trimmed to the first {lvl} fields = tag level of the algorithm tree organize searches',
+            f'feedback consumer names handed to organize are fields {sorted(ranges["fbtask"])} of the consumer tag; the algorithm tree (ae.at) is tagged with the first {lvl} fields',
+        )
+        # the report container keeps entries unchanged
+        n_nv = 0
+        for fn in prog.funcs.values():
+            if fn.name != 'new_values' or fn.cls is None or fn.module.name not in ('dawgie', 'dawgie.base'):
+                continue
+            n_nv += 1
+            r.instance()
+            rep.analysed(fn)
+            ps = fn.params()
+            pv = ps[1] if len(ps) > 1 else None
+            apps = [c for c in fn.calls() if isinstance(c.func, ast.Attribute) and c.func.attr in ('append', 'add') and len(c.args) == 1]
+            rets = [n for n in fn.own_nodes() if isinstance(n, ast.Return) and n.value is not None]
+            store = norm(apps[0].func.value) if apps else None
+            tests = [n.test for n in fn.own_nodes() if isinstance(n, ast.If)]
+            ok = (
+                pv is not None
+                and len(apps) == 1
+                and isinstance(apps[0].args[0], ast.Name)
+                and apps[0].args[0].id == pv
+                and rets
+                and all(norm(x.value) == store for x in rets)
+                and all({n.id for n in ast.walk(t) if isinstance(n, ast.Name)} <= {pv} for t in tests)
+            )
+            r.check(bool(ok), f'{fn.qname}:keeps-entries', where(fn), 'entry appended unchanged; the same list is returned', f'{fn.qname} does not append the reported (name, isnew) pair unchanged and return the collected list', nontrivial=False)
+        if n_nv < 3:
+            raise AnalysisError(f'only {n_nv} new_values containers found on the bot classes')
+        r.note('the isnew flag itself (content digest never stored before) is decided under C07, not here')
+        r.note("target names containing '.' are outside the repository's own naming rule and are not analysed")
+    return good
+
+
+# ---------------------------------------------------------------------------
+# R-C02-5 : reply handling
+
+FIND = 'dawgie.pl.schedule.find'
+COMPLETE = 'dawgie.pl.schedule.complete'
+PURGE = 'dawgie.pl.schedule.purge'
+TRANSLATE = 'dawgie.pl.farm.Hand._translate'
+RES = 'dawgie.pl.farm.Hand._res'
+STATE = 'dawgie.pl.jobinfo.State.'
+RAWS = (None, True, False)
+
+
+class _RawModel(_Model):
+    """the success field of a reply: None (invalid data), True, False"""
+
+    def __init__(self, val, raw):
+        self.val, self.raw = val, raw
+
+    def truthy(self, val):
+        return bool(self.raw) if val == self.val else None
+
+    def eq(self, a, b):
+        if a == self.val and b[0] == 'const':
+            if b[1] is None:
+                return self.raw is None
+            if isinstance(b[1], bool):
+                return self.raw is b[1]
+        return None
+
+
+class _ResModel(_RawModel):
+    def __init__(self, prog, raw, mapping):
+        super().__init__(('attr', ('msg',), 'success'), raw)
+        self.prog, self.mapping = prog, mapping
+        self.upd = prog.func(UPDATE)
+
+    def call(self, it, node, sym, a, kw, st):
+        if sym == TRANSLATE and len(a) == 1:
+            if a[0] == self.val and self.mapping.get(self.raw):
+                return [(('sym', self.mapping[self.raw]), st)]
+            return [(('opaque', norm(node)[:60]), st)]
+        if sym == FIND:
+            it.raises(st)  # the lookup fails (IndexError) when the job is not queued
+            v = ('job', a[0] if a else None)
+            return [(v, it.emit(st, ('find', v)))]
+        if sym in (COMPLETE, PURGE):
+            return [(('const', None), it.emit(st, (sym.rsplit('.', 1)[1], tuple(a))))]
+        if sym == UPDATE:
+            names = self.upd.params()
+            vals = tuple(a[i] if i < len(a) else kw.get(n, ('const', None)) for i, n in enumerate(names))
+            return [(('const', None), it.emit(st, ('update', vals)))]
+        return NotImplemented
+
+    def inline_ok(self, callee):
+        return callee.qname not in (TRANSLATE,)
+
+
+def _translate_map(prog, r, rep):
+    f = prog.func(TRANSLATE)
+    rep.analysed(f)
+    if len(f.params()) != 1:
+        raise AnalysisError('farm.Hand._translate no longer takes the success field as its only parameter')
+    p = ('p', f.params()[0])
+    mapping = {}
+    for raw in RAWS:
+        out, _sh, _it = _run(prog, f, _RawModel(p, raw), {p[1]: p})
+        vals = {_eget(st[0], '$ret') for st in out.ret} | ({('const', None)} if out.normal else set())
+        if len(vals) == 1:
+            v = next(iter(vals))
+            if v[0] == 'sym' and v[1].startswith(STATE):
+                mapping[raw] = v[1]
+    r.instance()
+    want = {None: STATE + 'invalid', True: STATE + 'success', False: STATE + 'failure'}
+    r.check(
+        mapping == want,
+        f'{f.qname}:mapping',
+        where(f),
+        'None -> invalid, truthy -> success, falsy -> failure',
+        f'Hand._translate maps the success field as { {k: v.rsplit(".", 1)[1] for k, v in mapping.items()} }: only a successful run may be treated as success',
+    )
+    return mapping
+
+
+def _rule5(ctx, rep):
+    prog = ctx.prog
+    f = prog.func(RES)
+    rep.analysed(f)
+    with rep.rule(
+        'R-C02-5',
+        'reply handling: when the job is found, complete exactly once and before update; update exactly on success with the reply\'s values, the found job and the reply\'s run id; the success reply carries the report',
+        floor=7,
+        breaks='dependents are organised while the reporting unit still counts as executing (and are withheld or lost), or with a report / job / run id that is not the reply\'s',
+    ) as r:
+        mapping = _translate_map(prog, r, rep)
+        if len(f.params()) != 1:
+            raise AnalysisError('farm.Hand._res no longer takes the reply as its only parameter')
+        msg = ('msg',)
+        problems = {}
+        found_any = False
+        for raw in RAWS:
+            r.instance()
+            out, sh, _it = _run(prog, f, _ResModel(prog, raw, mapping), {f.params()[0]: msg})
+            problems.update(sh['problems'])
+            bad = []
+            for st in out.normal | out.ret | out.exc:
+                tr = [ev for ev in st[2] if ev[0] in ('find', 'complete', 'update', 'purge')]
+                order = [ev[0] for ev in tr]
+                if 'find' not in order:
+                    if 'complete' in order or 'update' in order:
+                        bad.append(f'{order}: result applied without looking the job up')
+                    continue
+                found_any = True
+                nu = order.count('update')
+                if order.count('complete') != 1:
+                    bad.append(f'{order}: complete called {order.count("complete")} times')
+                elif nu and order.index('complete') > order.index('update'):
+                    bad.append(f'{order}: update runs before complete (the reporting unit is still in doing while its dependents are organised)')
+                if nu != (1 if raw is True else 0):
+                    bad.append(f'{order}: update called {nu} time(s) for a reply with success={raw}')
+                job = next(ev[1] for ev in tr if ev[0] == 'find')
+                if job != ('job', ('attr', msg, 'jobid')):
+                    bad.append('the job is not looked up by the job id of the reply')
+                for ev in tr:
+                    if ev[0] == 'update':
+                        want = (('attr', msg, 'values'), job, ('attr', msg, 'runid'))
+                        if ev[1] != want:
+                            bad.append(f'update receives {ev[1]!r}'[:160] + ', expected (reply.values, the found job, reply.runid)')
+            r.check(
+                not bad,
+                f'{f.qname}:success={raw}',
+                where(f),
+                'find -> complete x1 -> update (success only) with (reply.values, job, reply.runid)',
+                f'reply with success={raw}: ' + '; '.join(sorted(set(bad))[:3]),
+            )
+        if not found_any:
+            raise AnalysisError('farm.Hand._res: no path on which the job is looked up (schedule.find)')
+        for key, (wh, m) in sorted(problems.items()):
+            r.fail(key, wh, m)
+        # the report travels: Context.run returns the bot's collected new values, execute() puts them into the success reply
+        run = prog.func('dawgie.pl.worker.Context.run')
+        rep.analysed(run)
+        r.instance()
+        rets = [n for n in run.own_nodes() if isinstance(n, ast.Return)]
+        bots = {norm(c.func.value) for c in run.calls() if isinstance(c.func, ast.Attribute) and c.func.attr == 'do'}
+        okr = bool(rets) and all(
+            x.value is not None
+            and isinstance(x.value, ast.Call)
+            and isinstance(x.value.func, ast.Attribute)
+            and x.value.func.attr == 'new_values'
+            and not x.value.args
+            and not x.value.keywords
+            and norm(x.value.func.value) in bots
+            for x in rets
+        )
+        r.check(okr, f'{run.qname}:returns-report', where(run), 'returns <bot>.new_values() of the bot that ran', 'worker Context.run does not return the new-value report of the bot it ran', nontrivial=False)
+        n_ex = 0
+        for q in ('dawgie.pl.worker.cluster.execute', 'dawgie.pl.worker.aws.execute'):
+            if not prog.has_func(q):
+                continue
+            ex = prog.func(q)
+            rep.analysed(ex)
+            defs = _Defs(ex)
+            for c in calls_to(prog, ex, 'dawgie.pl.message.make'):
+                suc = arg(c, None, 'suc')
+                if not (isinstance(suc, ast.Constant) and suc.value is True):
+                    continue
+                if arg(c, None, 'jid') is None:
+                    continue
+                n_ex += 1
+                r.instance()
+                val = arg(c, None, 'val')
+                cv = defs.canon(val) if val is not None else None
+                ok = isinstance(cv, ast.Call) and isinstance(cv.func, ast.Attribute) and cv.func.attr == 'run'
+                r.check(ok, f'{q}:success-reply-values', where(ex, c), 'val=<context>.run(...)', f'the success reply of {q} does not carry the report returned by Context.run (val={norm(val) if val is not None else None})', nontrivial=False)
+        if n_ex < 1:
+            raise AnalysisError('no success reply construction found in the workers')
+
+
+# ---------------------------------------------------------------------------
+
+
+def check(ctx):
+    rep = Report(
+        PID,
+        ctx.tier,
+        ctx.prog,
+        'Small-model symbolic execution (path-sensitive abstract interpretation over symbolic values, exhaustive over the atoms the code can test and '
+        'over iteration orders) of schedule.update, schedule._priors, util.refs.as_vref, farm.Hand._res / _translate, plus shape extraction of the '
+        'report writers in the database back ends: (1) only entries flagged new contribute names, feedback look-ups and targets; (2) exactly the '
+        'children that declare a new value (and feedback consumers) reach organize with the targets of the new entries, and organize adds the whole '
+        'requested target set to todo of every located node and queues it; (3) all three element kinds / reference kinds are covered; (4) writer and '
+        'reader agree on the dotted name (arity, field order, target = the dataset\'s own target name); (5) complete precedes update, update only on '
+        'success with the reply\'s own values/job/run id. The transitive closure over time is the iteration of (2) at each completion and is not computed.',
+        assumptions=[
+            'different fields / different entries of the model hold different text',
+            'apart from self edges (which update must skip) and declared feedback, the dependency graph is acyclic',
+            "names do not contain '.' (util.names.verify_name)",
+        ],
+    )
+    rep.not_decided = [
+        'transitive closure over time (iteration of R-C02-2 at every completion)',
+        'results that arrive while the same unit is queued again',
+        'stored results at quiescence equal those of a from-scratch run (depends on runtime content and order)',
+        'the promotion engine (re-use of old results for values not flagged new)',
+        'novelty of the flag itself (C07)',
+    ]
+    ranges = _update_rules(ctx, rep, 6)
+    _rule3(ctx, rep)
+    _rule4(ctx, rep, ranges)
+    _rule5(ctx, rep)
+    return rep
+
+
+_S = 'pl/schedule.py'
+_U = (_S, 'update')
+_O = (_S, 'organize')
+_RF = 'util/refs.py'
+_SM = 'db/shelve/model.py'
+_COMPLETE = 'dawgie.pl.schedule.complete(job, msg.runid, inc, msg.timing, state)\n'
+VARIANTS = [
+    # R-C02-1
+    V('filter inverted', 'B', *_U, 'filter(lambda t: t[1], values)', 'filter(lambda t: not t[1], values)', 'R-C02-1'),
+    V('filter dropped', 'B', *_U, 'filter(lambda t: t[1], values)', 'values', 'R-C02-1'),
+    V('targets of every entry', 'B', *_U, 'targets.add(target)', 'targets.update(v.split(\'.\')[1] for v, _n in values)', 'R-C02-1'),
+    # R-C02-2
+    V('self edge followed (all descendants and the node itself)', 'B', *_U, 'filter(lambda n: n.tag != original.tag, original)', 'original.iter()', 'R-C02-2'),
+    V('self edge followed (filter dropped)', 'B', *_U, 'filter(lambda n: n.tag != original.tag, original)', 'original', 'R-C02-2'),
+    V('only the first child examined', 'B', *_U, 'filter(lambda n: n.tag != original.tag, original)', 'original[:1]', 'R-C02-2'),
+    V('child added without membership test', 'B', *_U, 'if dawgie.util.vref_as_name(vref) in vns:', 'if vns:', 'R-C02-2'),
+    V('membership test negated', 'B', *_U, 'if dawgie.util.vref_as_name(vref) in vns:', 'if dawgie.util.vref_as_name(vref) not in vns:', 'R-C02-2'),
+    V('stop after the first declared input', 'B', *_U, 'task_names.add(node.tag)\n                pass', 'task_names.add(node.tag)\n                break', 'R-C02-2'),
+    V('names set overwritten per entry', 'B', *_U, 'vns.add(fvn)', 'vns = {fvn}', 'R-C02-2'),
+    V('references not expanded to value level', 'B', *_U, "dawgie.util.as_vref(_priors(node.get('alg')))", "_priors(node.get('alg'))", 'R-C02-2'),
+    V('only Algorithm.previous consulted', 'B', *_U, "dawgie.util.as_vref(_priors(node.get('alg')))", "dawgie.util.as_vref(node.get('alg').previous())", 'R-C02-2'),
+    V('extra status guard on selection', 'B', *_U, 'if dawgie.util.vref_as_name(vref) in vns:', "if dawgie.util.vref_as_name(vref) in vns and node.get('status') is not State.running:", 'R-C02-2'),
+    V('feedback consumer dropped', 'B', *_U, "task_names.add('.'.join(feedbacks[fvn].split('.')[:2]))", 'pass', 'R-C02-2'),
+    V('organize without the targets', 'B', *_U, 'organize(sorted(task_names), rid, targets, event)', 'organize(sorted(task_names), rid, set(), event)', 'R-C02-2'),
+    V('organize: requested minus executing', 'B', *_O, "n.get('todo').update(targets)", "n.get('todo').update(targets - n.get('doing'))", 'R-C02-2'),
+    V('organize: running nodes skipped', 'B', *_O, "                else:\n                    n.get('todo').update(targets)", "elif n.get('status') is not State.running:\n                    n.get('todo').update(targets)", 'R-C02-2'),
+    V('organize: todo replaced', 'B', *_O, "n.get('todo').update(targets)", "n.set('todo', dawgie.util.fifo.Unique(targets))", 'R-C02-2'),
+    V('organize: all-targets marker ignored', 'B', *_O, "                elif '__all__' in targets:\n                    n.get('todo').update(dawgie.db.targets())\n", '', 'R-C02-2'),
+    V('organize: only the first root searched', 'B', *_O, 'for t in dawgie.pl.schedule.ae.at:', 'for t in dawgie.pl.schedule.ae.at[:1]:', 'R-C02-2'),
+    V('organize: node not entered into the queue source', 'B', *_O, 'jobs[n.tag] = n\n', 'pass\n', 'R-C02-2'),
+    V('organize: queue keeps only executing nodes', 'B', *_O, "filter(lambda j: j.get('todo') or j.get('doing'), jobs.values())", "filter(lambda j: j.get('doing'), jobs.values())", 'R-C02-2'),
+    # R-C02-3
+    V('_priors without Regression', 'B', _S, '_priors', '    if isinstance(node, dawgie.Regression):\n        result = node.variables()\n', '', 'R-C02-3'),
+    V('_priors Analyzer reads previous', 'B', _S, '_priors', 'result = node.traits()', 'result = node.previous()', 'R-C02-3'),
+    V('as_vref without ALG_REF', 'B', _RF, 'as_vref', '        if isinstance(reference, dawgie.ALG_REF):\n            for svref in algref2svref(reference):\n                yield from svref2vref(svref)\n', '', 'R-C02-3'),
+    V('as_vref yields SV_REF unexpanded', 'B', _RF, 'as_vref', 'yield from svref2vref(reference)', 'yield reference', 'R-C02-3'),
+    V('as_vref first state vector only', 'B', _RF, 'as_vref', 'for svref in algref2svref(reference):', 'for svref in algref2svref(reference)[:1]:', 'R-C02-3'),
+    V('svref2vref first key only', 'B', _RF, 'svref2vref', 'for key in ref.item', 'for key in list(ref.item)[:1]', 'R-C02-3'),
+    # R-C02-4
+    V('target read from field 0', 'B', *_U, "target = vn.split('.')[1]", "target = vn.split('.')[0]", 'R-C02-4'),
+    V('value name read from field 3', 'B', *_U, "fvn = '.'.join(vn.split('.')[2:])", "fvn = '.'.join(vn.split('.')[3:])", 'R-C02-4'),
+    V('feedback consumer trimmed to 3 fields', 'B', *_U, "feedbacks[fvn].split('.')[:2]", "feedbacks[fvn].split('.')[:3]", 'R-C02-4'),
+    V('shelve writer names the bot target', 'B', _SM, 'Interface._update', '[str(runid), tn, task, alg.name(), sv.name(), k]', '[str(runid), self._bot()._target(), task, alg.name(), sv.name(), k]', 'R-C02-4'),
+    V('shelve writer swaps task and target', 'B', _SM, 'Interface._update', '[str(runid), tn, task, alg.name(), sv.name(), k]', '[str(runid), task, tn, alg.name(), sv.name(), k]', 'R-C02-4'),
+    V('metric writer swaps alg and sv', 'B', _SM, 'Interface._update_msv', '[str(runid), tn, task, alg.name(), msv.name(), k]', '[str(runid), tn, task, msv.name(), alg.name(), k]', 'R-C02-4'),
+    V('database key for another target', 'B', _SM, 'Interface._update', 'vname = self.__to_key(runid, tn, task, alg, sv, vn)', 'vname = self.__to_key(runid, self._bot()._target(), task, alg, sv, vn)', 'R-C02-4'),
+    V('post writer names the bot target', 'B', 'db/post/__init__.py', 'Interface._update', 'str(self._runid()),\n                                self._tn(),', 'str(self._runid()),\n                                self._bot()._target(),', 'R-C02-4'),
+    V('vref_as_name swaps alg and sv', 'B', _RF, 'vref_as_name', 'vref.impl.name(),\n            vref.item.name(),', 'vref.item.name(),\n            vref.impl.name(),', 'R-C02-4'),
+    V('feedback table keyed by consumer', 'B', 'pl/dag.py', 'Construct._feedback', 'self._feedbacks[fbn] = node.tag', 'self._feedbacks[node.tag] = fbn', 'R-C02-4'),
+    # R-C02-5
+    V('update before complete', 'B', 'pl/farm.py', 'Hand._res', _COMPLETE + '\n            if state', 'if state', 'R-C02-5'),
+    V('update on every outcome', 'B', 'pl/farm.py', 'Hand._res', 'dawgie.pl.schedule.purge(job, inc)', 'dawgie.pl.schedule.purge(job, inc)\n                dawgie.pl.schedule.update(msg.values, job, msg.runid)', 'R-C02-5'),
+    V('update with a fresh run id', 'B', 'pl/farm.py', 'Hand._res', 'dawgie.pl.schedule.update(msg.values, job, msg.runid)', 'dawgie.pl.schedule.update(msg.values, job, None)', 'R-C02-5'),
+    V('complete called twice', 'B', 'pl/farm.py', 'Hand._res', _COMPLETE, _COMPLETE + '            ' + _COMPLETE, 'R-C02-5'),
+    V('invalid data treated as success', 'B', 'pl/farm.py', 'Hand._translate', 'if state is None:\n            return dawgie.pl.schedule.State.invalid', 'if state is None:\n            return dawgie.pl.schedule.State.success', 'R-C02-5'),
+    V('worker drops the report', 'B', 'pl/worker/__init__.py', 'Context.run', 'return task.new_values()', 'return []', 'R-C02-5'),
+    V('success reply without values', 'B', 'pl/worker/cluster.py', 'execute', '                val=nv,\n', '', 'R-C02-5'),
+    # benign
+    V('names built by a set comprehension', 'N', *_U, '        vns = set()\n', "vns = {'.'.join(v.split('.')[2:]) for v, n in values if n}\n", None),
+    V('feedback table hoisted', 'N', *_U, 'if fvn in dawgie.pl.schedule.ae.feedbacks:', 'if fvn in feedbacks:', None),
+    V('flag tested inside the loop', 'N', *_U, 'for vn, _isnew in filter(lambda t: t[1], values):\n', 'for vn, _isnew in values:\n            if not _isnew:\n                continue\n', None),
+    V('children selected by one comprehension', 'N', *_U,
+      "        for node in filter(lambda n: n.tag != original.tag, original):\n            for vref in dawgie.util.as_vref(_priors(node.get('alg'))):\n                if dawgie.util.vref_as_name(vref) in vns:\n                    task_names.add(node.tag)\n                pass\n            pass\n",
+      "task_names |= {n.tag for n in original if n.tag != original.tag and any(dawgie.util.vref_as_name(v) in vns for v in dawgie.util.as_vref(_priors(n.get('alg'))))}\n", None),
+    V('break after the first matching input', 'N', *_U, '                    task_names.add(node.tag)\n                pass', 'task_names.add(node.tag)\n                    break\n                pass', None),
+    V('value name by maxsplit', 'N', *_U, "fvn = '.'.join(vn.split('.')[2:])", "fvn = vn.split('.', 2)[2]", None),
+    V('feedback consumer through Construct.trim', 'N', *_U, "task_names.add('.'.join(feedbacks[fvn].split('.')[:2]))", 'task_names.add(dawgie.pl.dag.Construct.trim(feedbacks[fvn], 2))', None),
+    V('self edge skipped inside the loop', 'N', *_U, "for node in filter(lambda n: n.tag != original.tag, original):\n", "for node in list(original):\n            if node.tag == original.tag:\n                continue\n", None),
+    V('rename vns', 'N', *_U, 'vns', 'fresh', None, 'all'),
+    V('selection extracted into a helper', 'N', _S, None, 'def update(values', "def _sel(node, names, out):\n    for vref in dawgie.util.as_vref(_priors(node.get('alg'))):\n        if dawgie.util.vref_as_name(vref) in names:\n            out.add(node.tag)\n            return\n\n\ndef update(values", None),
+    V('organize: in-place union through an alias', 'N', *_O, "                else:\n                    n.get('todo').update(targets)", "else:\n                    todo = n.get('todo')\n                    todo |= set(targets)", None),
+    V('organize: targets defaulted with or', 'N', *_O, 'targets = targets if targets else set()', 'targets = targets or set()', None),
+    V('_priors with early returns', 'N', _S, '_priors', '    if isinstance(node, dawgie.Algorithm):\n        result = node.previous()', 'if isinstance(node, dawgie.Algorithm):\n        return node.previous()', None),
+    V('as_vref with an explicit inner loop', 'N', _RF, 'as_vref', '            yield from svref2vref(reference)', 'for v in svref2vref(reference):\n                yield v', None),
+    V('shelve writer as f-string', 'N', _SM, 'Interface._update', "'.'.join(\n                                [str(runid), tn, task, alg.name(), sv.name(), k]\n                            )", "f'{runid!s}.{tn}.{task}.{alg.name()}.{sv.name()}.{k}'", None),
+    V('success tested on the reply field', 'N', 'pl/farm.py', 'Hand._res', 'if state == dawgie.pl.schedule.State.success:', 'if msg.success:', None),
+    V('reply application extracted into a local helper', 'N', 'pl/farm.py', 'Hand._res',
+      _COMPLETE + '\n            if state == dawgie.pl.schedule.State.success:\n                dawgie.pl.farm.ARCHIVE |= any(msg.values)\n                dawgie.pl.schedule.update(msg.values, job, msg.runid)\n            else:\n                dawgie.pl.schedule.purge(job, inc)',
+      'def _apply():\n                ' + _COMPLETE + '                if state == dawgie.pl.schedule.State.success:\n                    dawgie.pl.farm.ARCHIVE |= any(msg.values)\n                    dawgie.pl.schedule.update(msg.values, job, msg.runid)\n                else:\n                    dawgie.pl.schedule.purge(job, inc)\n\n            _apply()', None),
+]
